@@ -250,6 +250,40 @@ class Driver:
 
 # --------------------------------------------------------------------------- results
 
+class Timeout(Exception):
+    pass
+
+
+class time_limit:
+    """with time_limit(5): ...   raises Timeout (main thread, SIGALRM)"""
+
+    def __init__(self, seconds):
+        self.seconds = seconds
+
+    def _handler(self, signum, frame):
+        raise Timeout()
+
+    def __enter__(self):
+        import signal
+        self.old = signal.signal(signal.SIGALRM, self._handler)
+        signal.setitimer(signal.ITIMER_REAL, self.seconds)
+
+    def __exit__(self, *a):
+        import signal
+        signal.setitimer(signal.ITIMER_REAL, 0)
+        signal.signal(signal.SIGALRM, self.old)
+        return False
+
+
+def limit_memory(gb=8):
+    """a runaway sympy computation must not take the machine down"""
+    try:
+        import resource
+        resource.setrlimit(resource.RLIMIT_AS, (gb << 30, gb << 30))
+    except Exception:
+        pass
+
+
 class Corr:
     """result of a correspondence run"""
 
